@@ -24,6 +24,8 @@ Definition reviewed : list (string * string * string * string * string) := [
      "sorted: C07_scope_names (names of one scope)");
   ("ir/src/name_generator.rs", "build", "for:symbols", "into-set",
      "not-hash: a Vec of symbols");
+  ("ir/src/name_generator.rs", "build", "name_map.names.values(", "ordered",
+     "set: the loop body only inserts the name into the HashSet of its namespace (namespace_names), read by membership tests alone");
   ("ir/src/usage_analysis.rs", "recurse", "self.0.keys(", "collected-unsorted",
      "fixpoint: C07_usage_fixpoint");
   ("ir/src/usage_analysis.rs", "recurse", "for:&current_set.required", "into-set",
